@@ -16,6 +16,20 @@ Proof.
   rewrite props_fold_add_bal. reflexivity.
 Qed.
 
+Lemma h_fold_add_bal : forall (l : list N) (x : Z) (s : state),
+  g_h (fold_left (fun acc v => add_bal acc v x) l s) = g_h s.
+Proof. induction l as [|a l IH]; intros x s; simpl; [reflexivity|]. rewrite IH. reflexivity. Qed.
+
+Lemma distribute_h : forall s e id p d s' paid bad,
+  distribute s e id p d = (s', paid, bad) -> g_h s' = g_h s.
+Proof.
+  intros s e id p d s' paid bad H. unfold distribute in H. inversion H; subst. simpl.
+  rewrite h_fold_add_bal. reflexivity.
+Qed.
+
+Lemma h_anom (c : bool) x : g_h (if c then set_anom x else x) = g_h x.
+Proof. destruct c; reflexivity. Qed.
+
 (* ---------- per-record invariant ---------- *)
 Definition PInv (p : prec) : Prop :=
   (p_status p = StFunding -> p_votes p = []) /\
@@ -173,6 +187,8 @@ Proof.
   destruct (g_props s !! id) as [p|] eqn:E; [|discriminate].
   destruct (bool_decide (p_store p = SActive)) eqn:E1; simpl in H; [|discriminate].
   apply bool_decide_eq_true in E1.
+  destruct (bool_decide (p_status p = StVoting)); simpl in H; [|discriminate].
+  destruct (g_h s <=? p_vdl p); [discriminate|].
   inversion H; subst; clear H.
   right. exists id. eexists. split; [reflexivity|]. rewrite E. intros HP. split.
   - pinv HP.
@@ -521,4 +537,372 @@ Proof.
     apply Z.ltb_ge in E1, E2.
     destruct (bool_decide (p_store p = SPassed)); inversion H; subst; clear H; (split; [reflexivity|]);
       eexists; exists cur; simpl; rewrite lookup_insert; repeat split; auto; lia.
+Qed.
+
+(* ---------- expiry: only in the voting stage, only after the voting deadline (every step of every history) ---------- *)
+Definition expirable (s : state) (p : prec) : Prop :=
+  p_store p = SActive /\ p_status p = StVoting /\ p_vdl p < g_h s.
+
+(* the relation every step satisfies; it composes (exp_trans), so it also holds across the EndBlock queues *)
+Definition exp_rel (s s' : state) : Prop :=
+  g_h s' = g_h s /\
+  forall id p', g_props s' !! id = Some p' ->
+    match g_props s !! id with
+    | Some p =>
+        (p_store p <> SActive -> p_store p' <> SActive /\ (p_outcome p' = OInsufVotes -> p_outcome p = OInsufVotes)) /\
+        (p_store p = SActive -> p_outcome p' = OInsufVotes -> expirable s p /\ p_store p' <> SActive)
+    | None => p_outcome p' <> OInsufVotes
+    end.
+
+Definition exp_update (s s' : state) : Prop :=
+  g_h s' = g_h s /\
+  (g_props s' = g_props s \/
+   exists id p', g_props s' = <[id := p']> (g_props s) /\
+     match g_props s !! id with
+     | Some p =>
+        (p_store p <> SActive -> p_store p' <> SActive /\ (p_outcome p' = OInsufVotes -> p_outcome p = OInsufVotes)) /\
+        (p_store p = SActive -> p_outcome p = OInProgress -> p_outcome p' = OInsufVotes -> expirable s p /\ p_store p' <> SActive) /\
+        (p_store p' = SActive -> p_store p = SActive /\ p_outcome p' = p_outcome p)
+     | None => p_outcome p' = OInProgress
+     end).
+
+Lemma exp_rel_same s s' : g_h s' = g_h s -> g_props s' = g_props s ->
+  (forall id p, g_props s !! id = Some p -> p_store p = SActive -> p_outcome p <> OInsufVotes) -> exp_rel s s'.
+Proof.
+  intros Hh Heq Hact. split; [exact Hh|]. intros id p' Hp'. rewrite Heq in Hp'. rewrite Hp'.
+  split; [intros Hn; split; auto | intros Ha Ho; exfalso; eapply Hact; eauto].
+Qed.
+
+(* active proposals are in progress (part of the invariant) *)
+Definition ActInv (s : state) : Prop :=
+  forall id p, g_props s !! id = Some p -> p_store p = SActive -> p_outcome p = OInProgress.
+
+Lemma Inv_ActInv s : Inv s -> ActInv s.
+Proof. intros HI id p Hp Ha. destruct (HI id p Hp) as (_ & _ & _ & _ & _ & H6). auto. Qed.
+
+Lemma exp_update_sound s s' : ActInv s -> exp_update s s' -> exp_rel s s'.
+Proof.
+  intros HA [Hh [Heq | (id & p' & Heq & Hm)]].
+  - apply exp_rel_same; auto. intros i p Hp Ha Ho. rewrite (HA i p Hp Ha) in Ho. discriminate.
+  - split; [exact Hh|]. intros i q Hq. rewrite Heq in Hq. destruct (decide (i = id)) as [->|Hne].
+    + rewrite lookup_insert in Hq. inversion Hq; subst.
+      destruct (g_props s !! id) as [p|] eqn:Ep; [|rewrite Hm; discriminate]. destruct Hm as (Hm1 & Hm2 & _).
+      split; [exact Hm1|]. intros Ha. apply Hm2; auto. eapply HA; eauto.
+    + rewrite lookup_insert_ne in Hq by congruence. rewrite Hq.
+      split; [intros Hn; split; auto | intros Ha Ho; exfalso; rewrite (HA i q Hq Ha) in Ho; discriminate].
+Qed.
+
+Lemma exp_update_actinv s s' : ActInv s -> exp_update s s' -> ActInv s'.
+Proof.
+  intros HA [Hh [Heq | (id & p' & Heq & Hm)]]; intros i q Hq Ha; rewrite Heq in Hq; [eauto|].
+  destruct (decide (i = id)) as [->|Hne].
+  - rewrite lookup_insert in Hq. inversion Hq; subst.
+    destruct (g_props s !! id) as [p|] eqn:Ep; [|exact Hm]. destruct Hm as (_ & _ & Hm3).
+    destruct (Hm3 Ha) as [Hpa Ho]. rewrite Ho. eapply HA; eauto.
+  - rewrite lookup_insert_ne in Hq by congruence. eauto.
+Qed.
+
+Ltac exp_solve E :=
+  right; eexists; eexists; (split; [reflexivity|]); rewrite E; unfold expirable;
+  rewrite ?af_store, ?af_outcome; simpl;
+  repeat split; intros; try congruence; try discriminate; try lia; auto.
+
+Lemma create_exp : forall s e id ty pr amt fdl vdl goal pass cv s' ev,
+  h_create s e id ty pr amt fdl vdl goal pass cv = Some (s', ev) -> exp_update s s'.
+Proof.
+  intros s e id ty pr amt fdl vdl goal pass cv s' ev H. unfold h_create in H. cbv zeta in H.
+  repeat match type of H with (if ?c then None else _) = _ =>
+    match type of c with bool => destruct c; [discriminate|] end end.
+  destruct (g_props s !! id) eqn:E; [discriminate|].
+  destruct (bal s pr - amt <? 0); [discriminate|]. inversion H; subst; clear H.
+  split; [reflexivity|]. exp_solve E.
+Qed.
+
+Lemma fund_exp : forall s e id f amt s' ev, h_fund s e id f amt = Some (s', ev) -> exp_update s s'.
+Proof.
+  intros s e id f amt s' ev H. unfold h_fund in H.
+  destruct (g_props s !! id) as [p|] eqn:E; [|discriminate].
+  destruct (bool_decide (p_store p = SActive)) eqn:E1; simpl in H; [|discriminate].
+  destruct (p_fdl p <? g_h s); [discriminate|].
+  destruct (bool_decide (p_status p = StFunding)) eqn:E2; simpl in H; [|discriminate].
+  apply bool_decide_eq_true in E1, E2.
+  destruct (bal s f - amt <? 0); [discriminate|]. inversion H; subst; clear H.
+  split; [reflexivity|].
+  destruct (p_goal p <=? amt + p_total p); exp_solve E.
+Qed.
+
+Lemma vote_exp : forall s e id v o s' ev, h_vote s e id v o = Some (s', ev) -> exp_update s s'.
+Proof.
+  intros s e id v o s' ev H. unfold h_vote in H.
+  destruct (g_props s !! id) as [p|] eqn:E; [|discriminate].
+  destruct (bool_decide (p_store p = SActive)) eqn:E1; simpl in H; [|discriminate].
+  destruct (bool_decide (p_status p = StVoting)) eqn:E2; simpl in H; [|discriminate].
+  apply bool_decide_eq_true in E1, E2.
+  destruct (p_vdl p <? g_h s); [discriminate|].
+  destruct (bool_decide (v ∈ e_vals e)); simpl in H; [|discriminate].
+  destruct (vote_update v o (p_votes p)) as [vs|] eqn:Ev; [|discriminate].
+  destruct (p_snapblk p =? g_blk s); [discriminate|].
+  inversion H; subst; clear H. split; [reflexivity|].
+  destruct (tally vs (o_pass (opts_of e (p_type p)))); exp_solve E.
+Qed.
+
+Lemma cancel_exp : forall s id pr s' ev, h_cancel s id pr = Some (s', ev) -> exp_update s s'.
+Proof.
+  intros s id pr s' ev H. unfold h_cancel in H.
+  destruct (g_props s !! id) as [p|] eqn:E; [|discriminate].
+  destruct (bool_decide (p_store p = SActive)) eqn:E1; simpl in H; [|discriminate].
+  destruct (bool_decide (p_status p = StFunding)) eqn:E2; simpl in H; [|discriminate].
+  destruct (p_fdl p <? g_h s); [discriminate|].
+  destruct (N.eqb (p_proposer p) pr); simpl in H; [|discriminate].
+  inversion H; subst; clear H. split; [reflexivity|]. exp_solve E.
+Qed.
+
+Lemma expire_exp : forall s id s' ev, h_expire s id = Some (s', ev) -> exp_update s s'.
+Proof.
+  intros s id s' ev H. unfold h_expire in H.
+  destruct (g_props s !! id) as [p|] eqn:E; [|discriminate].
+  destruct (bool_decide (p_store p = SActive)) eqn:E1; simpl in H; [|discriminate].
+  destruct (bool_decide (p_status p = StVoting)) eqn:E2; simpl in H; [|discriminate].
+  apply bool_decide_eq_true in E1, E2.
+  destruct (g_h s <=? p_vdl p) eqn:E3; [discriminate|]. apply Z.leb_gt in E3.
+  inversion H; subst; clear H. split; [reflexivity|]. exp_solve E.
+Qed.
+
+Lemma withdraw_exp : forall s id f amt ben s' ev, h_withdraw s id f amt ben = Some (s', ev) -> exp_update s s'.
+Proof.
+  intros s id f amt ben s' ev H. unfold h_withdraw in H.
+  destruct (g_props s !! id) as [p|] eqn:E; [|discriminate].
+  destruct (refundable (p_outcome p)) eqn:Er.
+  - destruct (funded_visible (g_blk s) p f); [|discriminate].
+    destruct (alookup f (p_indiv p)) as [cur|] eqn:El; [|discriminate].
+    destruct (cur - amt <? 0); [discriminate|].
+    destruct (p_total p - amt <? 0); [discriminate|].
+    inversion H; subst; clear H. split; [reflexivity|]. exp_solve E.
+    all: try match goal with Ho : p_outcome ?q = OInsufVotes |- _ => rewrite Ho in Er; discriminate end.
+  - destruct ((p_goal p <=? p_total p) || (g_h s <=? p_fdl p)) eqn:Ec; [discriminate|].
+    cbv zeta in H. simpl in H.
+    destruct (funded_visible (g_blk s) _ f) eqn:Ef; [|discriminate].
+    unfold funded_visible in Ef. simpl in Ef.
+    destruct (alookup f (p_indiv p)) as [cur|] eqn:El; [|discriminate]. simpl in H.
+    destruct (cur - amt <? 0); [discriminate|].
+    destruct (p_total p - amt <? 0); [discriminate|].
+    destruct (bool_decide (p_store p = SPassed)); inversion H; subst; clear H;
+      (split; [reflexivity|]); exp_solve E.
+Qed.
+
+Local Opaque distribute.
+
+Lemma finalize_exp : forall s e id s' ev, h_finalize s e id = Some (s', ev) -> exp_update s s'.
+Proof.
+  intros s e id s' ev H. unfold h_finalize in H.
+  destruct (g_props s !! id) as [p|] eqn:E; [|discriminate].
+  destruct (8 <=? p_extra p). { inversion H; subst. split; [reflexivity|]. left. reflexivity. }
+  destruct (p_store p) eqn:Es; try discriminate;
+    try (inversion H; subst; split; [reflexivity|]; left; reflexivity).
+  all: destruct (bool_decide (p_status p = StCompleted)) eqn:E2; simpl in H; [|discriminate].
+  all: destruct (if p_snapblk p =? g_blk s then [] else p_votes p) as [|v0 vr] eqn:Ev; [discriminate|].
+  all: destruct (tally (p_votes p) (p_pass p)); try discriminate.
+  all: try (destruct (bool_decide (p_type p = TConfig) && bool_decide (id ∈ e_cfgfail e))).
+  all: try (destruct (distribute _ e id p _) as [[s1 paid] bad] eqn:Ed;
+            pose proof (distribute_h _ _ _ _ _ _ _ _ Ed) as Edh; apply distribute_props in Ed).
+  all: simpl in H; inversion H; subst; clear H.
+  all: (split; [ rewrite ?h_anom; simpl; rewrite ?Edh; try destruct (bool_decide (p_type p = TConfig)); reflexivity |]).
+  all: right; exists id; eexists.
+  all: (split; [ rewrite ?props_anom; simpl; rewrite ?Ed; try destruct (bool_decide (p_type p = TConfig)); reflexivity |]).
+  all: rewrite E; unfold expirable, del_funds; simpl; rewrite ?Es;
+       repeat split; intros; try congruence; try discriminate; auto.
+Qed.
+
+(* the relation the two EndBlock handlers satisfy; it composes along the queues *)
+Definition qrel (s s' : state) : Prop :=
+  g_h s' = g_h s /\
+  forall id, g_props s' !! id = g_props s !! id \/
+    exists p p', g_props s !! id = Some p /\ g_props s' !! id = Some p' /\ p_store p' <> SActive /\
+      (p_outcome p' = OInsufVotes -> p_outcome p = OInsufVotes \/ expirable s p).
+
+Lemma qrel_refl s : qrel s s.
+Proof. split; [reflexivity|]. intros id. left. reflexivity. Qed.
+
+Lemma qrel_trans s1 s2 s3 : qrel s1 s2 -> qrel s2 s3 -> qrel s1 s3.
+Proof.
+  intros [H12 R12] [H23 R23]. split; [congruence|]. intros id.
+  destruct (R12 id) as [E12 | (p1 & p2 & E1 & E2 & Hs2 & Ho2)];
+  destruct (R23 id) as [E23 | (q2 & p3 & F2 & F3 & Hs3 & Ho3)].
+  - left. congruence.
+  - right. rewrite E12 in F2. exists q2, p3. repeat split; auto.
+    intros Ho. destruct (Ho3 Ho) as [?|Hx]; [left; auto|]. right.
+    unfold expirable in *. rewrite <- H12. exact Hx.
+  - right. exists p1, p2. rewrite E23. repeat split; auto.
+  - right. rewrite E2 in F2. inversion F2; subst q2. exists p1, p3. repeat split; auto.
+    intros Ho. destruct (Ho3 Ho) as [Hiv | Hx].
+    + apply Ho2. exact Hiv.
+    + exfalso. destruct Hx as [Ha _]. congruence.
+Qed.
+
+Lemma qrel_upd s s' id p p' : g_h s' = g_h s -> g_props s !! id = Some p ->
+  g_props s' = <[id := p']> (g_props s) -> p_store p' <> SActive ->
+  (p_outcome p' = OInsufVotes -> p_outcome p = OInsufVotes \/ expirable s p) -> qrel s s'.
+Proof.
+  intros Hh E Heq Hs Ho. split; [exact Hh|]. intros i. rewrite Heq. destruct (decide (i = id)) as [->|Hne].
+  - right. exists p, p'. rewrite lookup_insert. auto.
+  - left. rewrite lookup_insert_ne by congruence. reflexivity.
+Qed.
+
+Lemma expire_qrel : forall s id s' ev, h_expire s id = Some (s', ev) -> qrel s s'.
+Proof.
+  intros s id s' ev H. unfold h_expire in H.
+  destruct (g_props s !! id) as [p|] eqn:E; [|discriminate].
+  destruct (bool_decide (p_store p = SActive)) eqn:E1; simpl in H; [|discriminate].
+  destruct (bool_decide (p_status p = StVoting)) eqn:E2; simpl in H; [|discriminate].
+  apply bool_decide_eq_true in E1, E2.
+  destruct (g_h s <=? p_vdl p) eqn:E3; [discriminate|]. apply Z.leb_gt in E3.
+  inversion H; subst; clear H.
+  eapply qrel_upd; [reflexivity | exact E | reflexivity | simpl; discriminate |].
+  intros _. right. unfold expirable. auto.
+Qed.
+
+Lemma finalize_qrel : forall s e id s' ev, h_finalize s e id = Some (s', ev) -> qrel s s'.
+Proof.
+  intros s e id s' ev H. unfold h_finalize in H.
+  destruct (g_props s !! id) as [p|] eqn:E; [|discriminate].
+  destruct (8 <=? p_extra p). { inversion H; subst. apply qrel_refl. }
+  destruct (p_store p) eqn:Es; try discriminate;
+    try (inversion H; subst; apply qrel_refl).
+  all: destruct (bool_decide (p_status p = StCompleted)) eqn:E2; simpl in H; [|discriminate].
+  all: destruct (if p_snapblk p =? g_blk s then [] else p_votes p) as [|v0 vr] eqn:Ev; [discriminate|].
+  all: destruct (tally (p_votes p) (p_pass p)); try discriminate.
+  all: try (destruct (bool_decide (p_type p = TConfig) && bool_decide (id ∈ e_cfgfail e))).
+  all: try (destruct (distribute _ e id p _) as [[s1 paid] bad] eqn:Ed;
+            pose proof (distribute_h _ _ _ _ _ _ _ _ Ed) as Edh; apply distribute_props in Ed).
+  all: simpl in H; inversion H; subst; clear H.
+  all: eapply qrel_upd;
+    [ rewrite ?h_anom; simpl; rewrite ?Edh; try destruct (bool_decide (p_type p = TConfig)); reflexivity
+    | exact E
+    | rewrite ?props_anom; simpl; rewrite ?Ed; try destruct (bool_decide (p_type p = TConfig)); reflexivity
+    | unfold del_funds; simpl; discriminate
+    | unfold del_funds; simpl; intros Ho; left; exact Ho ].
+Qed.
+
+Lemma run_queue_qrel : forall (h : state -> N -> hres) q s,
+  (forall st id st' ev, h st id = Some (st', ev) -> qrel st st') -> qrel s (run_queue h q s).1.
+Proof.
+  intros h q s Hh. unfold run_queue.
+  assert (G : forall q acc, qrel s acc.1 ->
+            qrel s (fold_left (fun acc id => match h acc.1 id with
+                                             | Some (s', ev) => (s', acc.2 ++ ev)
+                                             | None => acc end) q acc).1).
+  { induction q0 as [|id q0 IH]; intros acc Hacc; simpl; [exact Hacc|].
+    apply IH. destruct (h acc.1 id) as [[st' ev]|] eqn:Eh; [|exact Hacc].
+    simpl. eapply qrel_trans; [exact Hacc|]. eapply Hh; eauto. }
+  apply G. simpl. apply qrel_refl.
+Qed.
+
+Lemma end_block_qrel s e : qrel s (end_block s e).1.
+Proof.
+  unfold end_block.
+  destruct (run_queue h_expire (g_qexp s) s) as [s1 ev1] eqn:E1.
+  destruct (run_queue (fun st id => h_finalize st e id) (g_qfin s) s1) as [s2 ev2] eqn:E2.
+  simpl. eapply qrel_trans; [|eapply qrel_trans].
+  - pose proof (run_queue_qrel h_expire (g_qexp s) s) as H. rewrite E1 in H. apply H.
+    intros; eapply expire_qrel; eauto.
+  - pose proof (run_queue_qrel (fun st id => h_finalize st e id) (g_qfin s) s1) as H. rewrite E2 in H. apply H.
+    intros; eapply finalize_qrel; eauto.
+  - split; [reflexivity|]. intros id. left. reflexivity.
+Qed.
+
+(* what one step may do about expiry *)
+Definition exp_step_ok (s s' : state) : Prop :=
+  forall id p', g_props s' !! id = Some p' -> p_outcome p' = OInsufVotes ->
+    exists p, g_props s !! id = Some p /\ (p_outcome p = OInsufVotes \/ expirable s p).
+
+Lemma exp_rel_step_ok s s' : exp_rel s s' -> exp_step_ok s s'.
+Proof.
+  intros [_ R] id p' Hp' Ho. specialize (R id p' Hp').
+  destruct (g_props s !! id) as [p|]; [|congruence]. exists p. split; [reflexivity|].
+  destruct R as [RA RB]. destruct (decide (p_store p = SActive)) as [Ha|Hn].
+  - right. apply RB; auto.
+  - left. apply RA; auto.
+Qed.
+
+Lemma qrel_step_ok s s' : qrel s s' -> exp_step_ok s s'.
+Proof.
+  intros [_ R] id p' Hp' Ho. destruct (R id) as [E | (p & q & E1 & E2 & _ & H)].
+  - exists p'. split; [congruence|]. left. exact Ho.
+  - rewrite E2 in Hp'. inversion Hp'; subst q. exists p. auto.
+Qed.
+
+Lemma qrel_actinv s s' : qrel s s' -> ActInv s -> ActInv s'.
+Proof.
+  intros [_ R] HA id p' Hp' Ha. destruct (R id) as [E | (p & q & E1 & E2 & Hs & _)].
+  - rewrite E in Hp'. eauto.
+  - rewrite E2 in Hp'. inversion Hp'; subst q. congruence.
+Qed.
+
+Lemma step_exp s t : ActInv s -> exp_step_ok s (step s t).1.1 /\ ActInv (step s t).1.1.
+Proof.
+  intros HA. unfold step.
+  assert (Hrefl : exp_step_ok s s).
+  { intros id p' Hp' Ho. exists p'. auto. }
+  assert (Hc : forall r, (forall s1 ev, r = Some (s1, ev) -> exp_update s s1) ->
+               let s' := (match charge r (t_payer t) (t_fee t) with
+                          | Some (s', ev) => (s', true, ev) | None => (s, false, []) end).1.1 in
+               exp_step_ok s s' /\ ActInv s').
+  { intros r Hr. destruct (charge r (t_payer t) (t_fee t)) as [[s' ev]|] eqn:Ec; simpl; [|auto].
+    apply charge_props in Ec. destruct Ec as (s1 & -> & Heq).
+    specialize (Hr s1 ev eq_refl).
+    pose proof (exp_update_sound s s1 HA Hr) as R1. pose proof (exp_update_actinv s s1 HA Hr) as A1.
+    split.
+    - intros id p' Hp' Ho. rewrite Heq in Hp'. eapply exp_rel_step_ok; eauto.
+    - intros id p Hp Ha. rewrite Heq in Hp. eauto. }
+  assert (Hn : forall r : hres, (forall s1 ev, r = Some (s1, ev) -> exp_update s s1) ->
+               let s' := (match r with Some (s', ev) => (s', true, ev) | None => (s, false, @nil event) end).1.1 in
+               exp_step_ok s s' /\ ActInv s').
+  { intros r Hr. destruct r as [[s' ev]|]; simpl; [|auto]. specialize (Hr s' ev eq_refl).
+    split; [apply exp_rel_step_ok, exp_update_sound; auto | eapply exp_update_actinv; eauto]. }
+  destruct (t_op t) eqn:Eo.
+  - simpl. split; [|exact HA]. intros id p' Hp' Ho. exists p'. auto.
+  - apply Hc. intros; eapply create_exp; eauto.
+  - apply Hc. intros; eapply fund_exp; eauto.
+  - apply Hc. intros; eapply vote_exp; eauto.
+  - apply Hc. intros; eapply cancel_exp; eauto.
+  - apply Hc. intros; eapply withdraw_exp; eauto.
+  - apply (Hn (h_expire s id)). intros; eapply expire_exp; eauto.
+  - apply (Hn (h_finalize s (t_env t) id)). intros; eapply finalize_exp; eauto.
+  - pose proof (end_block_qrel s (t_env t)) as Q. destruct (end_block s (t_env t)) as [s' ev]. simpl in *.
+    split; [apply qrel_step_ok; exact Q | eapply qrel_actinv; eauto].
+  - apply Hc. intros s1 ev H. inversion H; subst. split; [reflexivity|]. left. reflexivity.
+Qed.
+
+Lemma run_actinv : forall ts s, ActInv s -> ActInv (run s ts).1.
+Proof.
+  induction ts as [|t ts IH]; intros s HA; simpl; [exact HA|].
+  pose proof (step_exp s t HA) as [_ A1]. destruct (step s t) as [[s1 ok] ev]. simpl in A1.
+  specialize (IH s1 A1). destruct (run s1 ts) as [s2 ev2]. exact IH.
+Qed.
+
+Lemma ActInv_init : ActInv init.
+Proof. intros id p H. unfold init in H. simpl in H. rewrite lookup_empty in H. discriminate. Qed.
+
+(* a proposal gets the outcome insufficientVotes only in its voting stage and only after its voting deadline:
+   for every history, every next operation (any kind, any sender, any height, any inputs) and every proposal *)
+Theorem expiry_after_deadline : forall ts t id p',
+  let s := (run init ts).1 in
+  g_props (step s t).1.1 !! id = Some p' -> p_outcome p' = OInsufVotes ->
+  exists p, g_props s !! id = Some p /\
+    (p_outcome p = OInsufVotes \/ (p_store p = SActive /\ p_status p = StVoting /\ p_vdl p < g_h s)).
+Proof.
+  intros ts t id p' s Hp' Ho.
+  destruct (step_exp s t (run_actinv ts init ActInv_init)) as [H _]. exact (H id p' Hp' Ho).
+Qed.
+
+(* a cancelled / goal-missed proposal refunds a funder's whole record as long as the recorded total covers it *)
+Theorem refund_available : forall s id f ben p cur,
+  g_props s !! id = Some p -> refundable (p_outcome p) = true -> funded_visible (g_blk s) p f = true ->
+  alookup f (p_indiv p) = Some cur -> cur <= p_total p ->
+  exists s', h_withdraw s id f cur ben = Some (s', [EvRefund id f ben cur]).
+Proof.
+  intros s id f ben p cur E Hr Hv Hl Ht. unfold h_withdraw. rewrite E, Hr, Hv, Hl.
+  replace (cur - cur <? 0) with false by (symmetry; apply Z.ltb_ge; lia).
+  replace (p_total p - cur <? 0) with false by (symmetry; apply Z.ltb_ge; lia).
+  eexists. reflexivity.
 Qed.
